@@ -120,6 +120,13 @@ def run(tier, v):
                 if k_ + 3 < len(R):
                     pc = cuts_to_pieces(len(R), [k_, k_ + 3])
                     add(pi, M32 - 2, 77, pc, ps, [("c", 0), ("c", 2), ("c", 1), ("s", 0)], tfo=True)
+        # the client half-closes after its request (a FIN without payload: HTTP/1.0-style clients, shutdown(SHUT_WR)), the response follows;
+        # the same with the request in two segments and the bare FIN between them arriving early
+        pc, ps = cuts_to_pieces(len(R), []) + [(len(R), 0)], cuts_to_pieces(len(S), [])
+        add(pi, 1000, 5000, pc, ps, [("c", 0), ("c", 1), ("s", 0)])
+        if len(R) > 12:
+            pc = cuts_to_pieces(len(R), [9]) + [(len(R), 0)]
+            add(pi, M32 - 5, 77, pc, ps, [("c", 0), ("c", 2), ("c", 1), ("s", 0)])
         # both messages whole, each in one segment, in both arrival orders
         for (ic, is_) in isns[:2]:
             pc, ps = cuts_to_pieces(len(R), []), cuts_to_pieces(len(S), [])
@@ -177,6 +184,8 @@ def run(tier, v):
             # every third connection is closed by the sender of its last-arriving segment in that very segment (FIN|PSH|ACK: a server
             # that answers and closes, a client that half-closes with its request): the data it carries is analysed like any other
             fl = 0x19 if (si % 3 == 0 and oi == len(s["order"]) - 1) else 0x18
+            if ln == 0:
+                fl = 0x11                      # a bare FIN|ACK
             if d == "c":
                 frames.append(frame(cip, sip, cp, sp, (ic + 1 + off) % M32, (is_ + 1) % M32, fl, R[off:off + ln]))
             else:
